@@ -28,19 +28,19 @@ NOT_DECIDED = ["every input inside the documented domain is accepted (needs feas
 
 # kinds of checks (columns of the validation matrix): name -> regex over the canonical site test
 KINDS = {
-    "string-nodes": r"^not \(isinstance\(L0_0, str\)\) @ (base_graph|G)\.nodes$",
-    "acyclic": r"^not \(nx\.is_directed_acyclic_graph\(self\.base_graph\)\)",
-    "source-sink-exist": r"^not \(self\.(source|sink)_edges\)",
-    "weights-present-nonneg": r"^LT0\[L0_2\[flow_attr\]\] @ self\.edges|^not \(flow_attr in L0_2\) @ self\.edges",
+    "string-nodes": r"not \(isinstance\(L0_0, str\)\).* @ (base_graph|G)\.nodes$",
+    "acyclic": r"not \(nx\.is_directed_acyclic_graph\(self\.base_graph\)\)",
+    "source-sink-exist": r"not \(self\.(source|sink)_edges\)",
+    "weights-present-nonneg": r"LT0\[L0_2\[flow_attr\]\].* @ self\.edges|not \(flow_attr in L0_2\).* @ self\.edges",
     "conservation": r"satisfies_flow_conservation|check_flow_conservation",
-    "constraint-shape-membership": r"^not \(self\.G\.has_edge\(L1_0\[0\], L1_0\[1\]\)\) @ L0_0",
-    "coverage-range": r"^LE0\[(self\.)?sub(path|set)_constraints_coverage\]",
-    "k-positive": r"^LE0\[k\]",
-    "weight-type": r"^not \((self\.)?weight_type in \[int, float\]\)",
-    "origin-or-cover-type": r"^not \('edge' == (self\.)?(flow_attr_origin|cover_type)\)",
-    "additional-start-end-membership": r"^not \(self\.additional_(starts|ends)\.issubset\(base_graph\.nodes\(\)\)\)",
-    "error-scaling-range": r"^LT0\[L0_1\] @ .*error_scaling\.items\(\)|^not \(LE0\[-1 \+ L0_1\]\) @ .*error_scaling\.items\(\)",
-    "ignore-list-shape": r"^not \(isinstance\(L0_0, str\)\) @ elements_to_ignore|isinstance\(L\d_0, tuple\).* @ (elements_to_ignore|L0_0)",
+    "constraint-shape-membership": r"not \(self\.G\.has_edge\(L1_0\[0\], L1_0\[1\]\)\).* @ L0_0",
+    "coverage-range": r"LE0\[(self\.)?sub(path|set)_constraints_coverage\]",
+    "k-positive": r"LE0\[k\]",
+    "weight-type": r"not \(EQ0\[float - (self\.)?weight_type\]\) & not \(EQ0\[int - (self\.)?weight_type\]\)",
+    "origin-or-cover-type": r"not \('edge' == (self\.)?(flow_attr_origin|cover_type)\) & not \('node' == (self\.)?(flow_attr_origin|cover_type)\)",
+    "additional-start-end-membership": r"not \(self\.additional_(starts|ends)\.issubset\(base_graph\.nodes\(\)\)\)",
+    "error-scaling-range": r"LT0\[L0_1\].* @ .*error_scaling\.items\(\)|not \(LE0\[-1 \+ L0_1\]\).* @ .*error_scaling\.items\(\)",
+    "ignore-list-shape": r"not \(isinstance\(L0_0, str\)\).* @ elements_to_ignore|isinstance\(L\d_0, tuple\).* @ (elements_to_ignore|L0_0)",
 }
 
 # required cells (DESIGN Appendix B): class -> kinds that must be established at construction or (wrappers) in solve
